@@ -19,6 +19,7 @@ type vfCaseC11 struct {
 	Srv      vfSrvCfg
 	Reqs     []vfReq
 	FailOpen bool // request server: the handler fails opens of "dir/b" with an error
+	CloseErr bool // request server: every handler object's Close returns an error
 	End      vfEnding
 }
 
@@ -28,6 +29,7 @@ func vfGenC11Session(t *rapid.T) vfCaseC11 {
 	c := vfCaseC11{Srv: vfGenSrvCfg(t)}
 	c.Srv.CloseKeepsRead = rapid.Bool().Draw(t, "closekeepsread")
 	c.FailOpen = rapid.Bool().Draw(t, "failopen")
+	c.CloseErr = rapid.IntRange(0, 2).Draw(t, "closeerr") == 0
 	n := rapid.IntRange(2, 30).Draw(t, "n")
 	if rapid.IntRange(0, 9).Draw(t, "many") == 0 {
 		for i := 0; i < 40; i++ {
@@ -87,6 +89,10 @@ func vfRunC11(ctx *vfCtx, c vfCaseC11) {
 			}
 			return nil
 		}
+	}
+	if h != nil && c.CloseErr {
+		h.closeErr = errors.New("vf: close reports a late write error")
+		ctx.Class("close-returns-error")
 	}
 	fdBase := 0
 	if ps.root != "" {
@@ -176,8 +182,9 @@ func vfRunC11(ctx *vfCtx, c vfCaseC11) {
 			}
 		}
 		if p.Type == vfFxpClose && !stale {
-			if rep.Type != vfFxpStatus || rep.Code != vfFxOK {
-				ctx.Failf("C11/close-failed/"+kind, "CLOSE of live handle %q answered with %s", p.Handle, vfPktString(rep))
+			closeFails := h != nil && c.CloseErr
+			if rep.Type != vfFxpStatus || (rep.Code != vfFxOK) != closeFails {
+				ctx.Failf("C11/close-failed/"+kind, "CLOSE of live handle %q answered with %s (the object's Close returns an error: %v)", p.Handle, vfPktString(rep), closeFails)
 			}
 			hs := string(p.Handle)
 			delete(live, hs)
